@@ -1,4 +1,4 @@
-from stages import beaconnet, httprelay
+from stages import beaconnet, httprelay, memboot
 
 
 def run(ctx):
@@ -16,4 +16,6 @@ def run(ctx):
         publicapi.run(ctx, publicapi.MON_C01)
     except ImportError:
         ctx.notes.append("gRPC PublicRand / PublicRandStream stage not available in this build")
+    # a node with the in-memory store starts its chain from one beacon asked from its peers
+    memboot.run(ctx)
     ctx.assumptions += ["the verification oracle is scheme.VerifyBeacon with the pinned group public key, computed by the harness independently of the node under test"]
